@@ -219,15 +219,23 @@ fn replay_stores(args: &Args) {
         let mut mem = InMemorySubstateDatabase::standard();
         let base = base_updates(&hist[0]["obs"]);
         mem.commit(&base);
-        rocks.commit(&base);
-        merkle.commit(&base);
+        if let Err(e) = catch(|| rocks.commit(&base)) {
+            out.mismatch(bi, 0, "rocksdb commit panic", json!("ok"), json!(e));
+        }
+        if let Err(e) = catch(|| merkle.commit(&base)) {
+            out.mismatch(bi, 0, "rocksdb-merkle commit panic", json!("ok"), json!(e));
+        }
         for (si, st) in hist.iter().enumerate() {
             if si > 0 {
                 steps += 1;
                 let u = updates(&st["upd"]);
                 mem.commit(&u);
-                rocks.commit(&u);
-                merkle.commit(&u);
+                if let Err(e) = catch(|| rocks.commit(&u)) {
+                    out.mismatch(bi, si, "rocksdb commit panic", json!("ok"), json!(e));
+                }
+                if let Err(e) = catch(|| merkle.commit(&u)) {
+                    out.mismatch(bi, si, "rocksdb-merkle commit panic", json!("ok"), json!(e));
+                }
                 if reopen > 0 && bi % reopen == 0 {
                     drop(rocks);
                     drop(merkle);
@@ -399,8 +407,13 @@ fn record(args: &Args) {
                 u.node_updates.entry(p.node_key.clone()).or_default().partition_updates.insert(p.partition_num, pu);
             }
             mem.commit(&u);
-            rocks.commit(&u);
-            merkle.commit(&u);
+            let p1 = catch(|| rocks.commit(&u)).is_err();
+            let p2 = catch(|| merkle.commit(&u)).is_err();
+            if p1 || p2 {
+                // a panicking commit is recorded as an event no action of TraceStore matches
+                out.emit(&json!({"a": "commit-panic", "rocks": p1, "merkle": p2, "upd": uj}));
+                break;
+            }
             if step % 4 == 3 && run % 3 == 0 {
                 drop(rocks);
                 drop(merkle);
